@@ -215,7 +215,26 @@ def ground_truth(clause, fuel):
     return None
 
 
-def check_requires(contract, config, typed_args, fuel=64):
+def _fuel_for(typed_args):
+    """enough unfolding steps for recursive specs over the concrete arrays at hand"""
+    def cells(t):
+        if not isinstance(t, dict):
+            return 0
+        if t.get('k') == 'array':
+            n = 1
+            for x in t.get('shape', []):
+                n *= max(int(x), 1)
+            return n
+        if t.get('k') in ('tuple', 'list'):
+            return sum(cells(x) for x in t['items'])
+        if t.get('k') == 'record':
+            return sum(cells(x) for x in t['fields'].values())
+        return 0
+    return min(64, 6 + max([cells(t) for t in typed_args] + [0]))
+
+
+def check_requires(contract, config, typed_args, fuel=None):
+    fuel = fuel or _fuel_for(typed_args)
     """True / False / None : do the inputs satisfy the contract's requires?"""
     Mode.int_mode = contract.int_mode
     pre = st.State()
@@ -234,7 +253,8 @@ def check_requires(contract, config, typed_args, fuel=64):
     return ok
 
 
-def check_concrete(contract, config, typed_args, native, fuel=64):
+def check_concrete(contract, config, typed_args, native, fuel=None):
+    fuel = fuel or _fuel_for(typed_args)
     """evaluate requires on the inputs and ensures on (inputs, real outputs).
     returns dict(requires_ok=bool|None, violated=[labels], undetermined=[labels], raised=...)"""
     Mode.int_mode = contract.int_mode
